@@ -8,7 +8,9 @@ import histharness as HH
 
 RULE = ("histories: every ordered pair of the 15 operation kinds on one connection (exhaustive for length 2), seeded sequences up to "
         "length 20 on one connection, and two API instances with different ids/keys whose exchanges are interleaved under forced "
-        "schedules; the fake device issues a fresh random session id on every login and the clock advances between operations; "
+        "schedules; the fake device issues a fresh random session id on every login and the clock advances between operations; some logins "
+        "inside a sequence are not answered or answered short; a device that takes 0.5 s .. 2 min over some replies (virtual loop clock: "
+        "every timeout the client arms fires, stale replies stay in the stream); "
         "non-trivial = distinct (sequence of operation kinds per instance, schedule shape)")
 ASSUMPTIONS = ["the system-level model is evaluated through theorem `locality` (per-instance sequential runs); that the Python objects "
                "share nothing is exactly what this correspondence tests (bounded)",
